@@ -161,7 +161,11 @@ class AbstractAxis(AbstractHasMetadata):
             matches = np.array([locate_one(values, v, tol=tol, issorted=issorted) for v in val], dtype=int)
 
         else:
-            matches = locate_many(values, val, issorted=issorted)
+            try:
+                matches = locate_many(values, val, issorted=issorted)
+            except TypeError:
+                # labels that cannot even be compared with those of the axis (e.g. numbers on a str axis) are not on it
+                raise IndexError("Some values where not found in the axis ({}): {}.".format(self.name, val))
 
             if mode != 'clip':
                 test = values[matches] != val
